@@ -62,3 +62,10 @@ UNMODELLED_FUNCS = [r'QFrame\.(ByteSize|Rolling|Append|Doc|functionType)', r'Doc
 
 # properties whose models are tied by the translated functions of Gen/GenFuncs.v (Properties/T1.v)
 T1_PROPS = ['C03', 'C04', 'C05', 'C06', 'C07', 'C08', 'C14', 'C16', 'C17']
+# which properties a failing translation proof concerns (sorter.go: C03; grouper.go: C04, C05; the pure functions: all)
+T1_FILES = {
+    'Proofs/GenFuncsProofs.v': T1_PROPS,
+    'Proofs/GenSorterProofs.v': ['C03'],
+    'Proofs/GenGrouperProofs.v': ['C04', 'C05'],
+    'Properties/T1.v': T1_PROPS,
+}
